@@ -10,11 +10,12 @@ type Rand struct{}
 func NewSource(seed int64) Source { return nil }
 func New(src Source) *Rand        { return &Rand{} }
 
-// Draws lists the values Float64 may return: the ends and the middle of [0,1).
-var Draws = []float64{0, 0.5, 1 - 1.0/(1<<53)}
+// Draws lists the values Float64 may return: the middle first (the default), then the ends of [0,1).
+// A draw other than the first is a deviation counted against Options.FaultBound.
+var Draws = []float64{0.5, 0, 1 - 1.0/(1<<53)}
 
-func (r *Rand) Float64() float64 { return Draws[vrt.Choose(len(Draws), "rand.Float64")] }
-func Float64() float64           { return Draws[vrt.Choose(len(Draws), "rand.Float64")] }
+func (r *Rand) Float64() float64 { return Draws[vrt.ChooseFault(len(Draws), 1, "rand.Float64")] }
+func Float64() float64           { return Draws[vrt.ChooseFault(len(Draws), 1, "rand.Float64")] }
 func (r *Rand) Int63n(n int64) int64 {
 	if n <= 1 {
 		return 0
